@@ -158,6 +158,14 @@ func (r *Results) Next() bool {
 	case batch, ok := <-r.rowChan:
 		if !ok {
 			verifEvent("res.next.closed", r.verifID, 0)
+			// The channel also closes when the pipeline winds down on a
+			// cancellation that arrived after the poll above: the select then
+			// has two ready cases and may land here. A canceled query must
+			// never be mistaken for a complete one, so re-check the caller's
+			// context before reporting completion.
+			if r.callerCtx.Err() != nil {
+				return r.terminate()
+			}
 			// Clean completion: all workers finished and every buffered row
 			// has been delivered. Recorded errors (failed blocks, a failed
 			// MetaStore iteration), if any, are the terminal state; the query
